@@ -10,6 +10,9 @@ package extract
 //@   props C18
 //@   opt safety = off
 //@   requires [assume] imports != nil
+//@   -- a float constant is printed from its big.Float with one decimal digit per mantissa bit (a binary
+//@   -- fraction a/2^k needs up to k digits; fewer digits print a neighbour of the value, not the value)
+//@   opt call-guard:Text = arg(0) == 'g' && arg(1) >= f.Prec()
 //@   ensures string-exact: val.Kind() == constant.String ==> r == fmt.Sprintf("constant.MakeFromLiteral(%q, token.%s, 0)", val.ExactString(), "STRING")
 //@   ensures int-exact: val.Kind() == constant.Int ==> r == fmt.Sprintf("constant.MakeFromLiteral(%q, token.%s, 0)", val.ExactString(), "INT")
 //@   ensures imports-recorded: (val.Kind() == constant.String || val.Kind() == constant.Int || val.Kind() == constant.Float) ==> imports["go/constant"] && imports["go/token"]
